@@ -118,13 +118,18 @@ def lean_build(targets):
 def audit(thm_modules, theorems, tag):
     """#print axioms for every required theorem; returns {name: (ok, detail)}."""
     os.makedirs(WORK, exist_ok=True)
-    path = os.path.join(WORK, f"Audit_{tag}.lean")
+    path = os.path.join(WORK, f"Audit_{tag}_{os.getpid()}.lean")      # per process: two runs of one property must not share the file
     with open(path, "w") as f:
         for m in thm_modules:
             f.write(f"import {m}\n")
         for t in theorems:
             f.write(f"#print axioms {t}\n")
-    rc, out = sh(["lake", "env", "lean", path], cwd=LEAN, timeout=1800)
+    with Lock("lean.lock"):                                             # no `lake build` of another run may rewrite the .olean files meanwhile
+        rc, out = sh(["lake", "env", "lean", path], cwd=LEAN, timeout=1800)
+    try:
+        os.remove(path)
+    except OSError:
+        pass
     res = {}
     text = out.replace("\n  ", " ")
     for t in theorems:
